@@ -18,11 +18,12 @@ VARIABLES its, x, y, log
 vars == <<its, x, y, log>>
 
 Guard(a, b) == CASE Body = "unguarded" -> TRUE
-                 [] Body = "fib"       -> a < 3 * Lim
+                 [] Body \in {"fib", "step"} -> a < 3 * Lim
                  [] Body = "argvar"    -> a # Lim
                  [] Body = "twoyields" -> a # Lim
                  [] Body \in {"recurfirst", "deferrecur"} -> a # 1 /\ a < Lim + 2       \* a hole at 1, then an end
                  [] Body = "nested"    -> a <= Lim
+                 [] Body = "raisingrecur" -> a < Lim + 2
                  [] OTHER              -> a < Lim
 EagerRecur == Body \in {"recurfirst", "deferrecur"}
 (* "twice" keeps a flag in the iterator's own scope (assigned by the body, not given by recur): every value is visited twice, *)
@@ -34,10 +35,14 @@ Recur(a, b) == CASE Body = "fib"  -> <<b, a + b>>
                  [] OTHER         -> <<a + 1, b>>
 Start(n) == IF Body \in {"fib", "step"} THEN <<n, n + 1>> ELSE <<n, 0>>
 Finite == Body # "unguarded"
+(* "raisingrecur": at argument 1 the expression given to recur raises, after the yield has been executed: that next raises, *)
+(* yields nothing and leaves the iterator where it was; a walk that reaches this point raises too                           *)
+ErrAt(a) == Body = "raisingrecur" /\ a = 1
 
-RECURSIVE Rest(_)
+RECURSIVE Rest(_), WalkRaises(_)
 (* the values successive next calls return from state s, up to the first StopIterErr *)
 Rest(s) == IF Guard(s[1], s[2]) THEN <<Yield(s[1], s[2])>> \o Rest(Recur(s[1], s[2])) ELSE <<>>
+WalkRaises(s) == Guard(s[1], s[2]) /\ (ErrAt(s[1]) \/ WalkRaises(Recur(s[1], s[2])))
 RECURSIVE Sum(_)
 Sum(q) == IF q = <<>> THEN 0 ELSE Head(q) + Sum(Tail(q))
 
@@ -48,14 +53,20 @@ Defined(v) == Var(v) # 0
 
 Next_(v) == /\ Defined(v)
             /\ LET s == its[Var(v)] IN
-               IF Guard(s[1], s[2])
+               IF Guard(s[1], s[2]) /\ ErrAt(s[1])
+               THEN UNCHANGED its /\ Log("next", v, <<"err">>)
+               ELSE IF Guard(s[1], s[2])
                THEN its' = [its EXCEPT ![Var(v)] = Recur(s[1], s[2])] /\ Log("next", v, <<"val", Yield(s[1], s[2])>>)
                ELSE /\ Log("next", v, <<"stop">>)
                     /\ IF EagerRecur THEN its' = [its EXCEPT ![Var(v)] = Recur(s[1], s[2])] ELSE UNCHANGED its
             /\ UNCHANGED <<x, y>>
-WalkA(v)   == Finite /\ Defined(v) /\ Log("A", v, <<"list", Rest(its[Var(v)])>>) /\ UNCHANGED <<its, x, y>>
-WalkList(v) == Finite /\ Defined(v) /\ Log("list", v, <<"list", [k \in 1..Len(Rest(its[Var(v)])) |-> 10 * Rest(its[Var(v)])[k]]>>) /\ UNCHANGED <<its, x, y>>
-WalkRed(v) == Finite /\ Defined(v) /\ Log("reduce", v, <<"val", 100 + Sum(Rest(its[Var(v)]))>>) /\ UNCHANGED <<its, x, y>>
+WalkA(v)   == Finite /\ Defined(v) /\ UNCHANGED <<its, x, y>>
+              /\ IF WalkRaises(its[Var(v)]) THEN Log("A", v, <<"err">>) ELSE Log("A", v, <<"list", Rest(its[Var(v)])>>)
+WalkList(v) == Finite /\ Defined(v) /\ UNCHANGED <<its, x, y>>
+              /\ IF WalkRaises(its[Var(v)]) THEN Log("list", v, <<"err">>)
+                 ELSE Log("list", v, <<"list", [k \in 1..Len(Rest(its[Var(v)])) |-> 10 * Rest(its[Var(v)])[k]]>>)
+WalkRed(v) == Finite /\ Defined(v) /\ UNCHANGED <<its, x, y>>
+              /\ IF WalkRaises(its[Var(v)]) THEN Log("reduce", v, <<"err">>) ELSE Log("reduce", v, <<"val", 100 + Sum(Rest(its[Var(v)]))>>)
 NewY(n)    == its' = Append(its, Start(n)) /\ y' = Len(its) + 1 /\ Log("new", "y", <<"n", n>>) /\ UNCHANGED x
 NewFromX   == its' = Append(its, Start(1)) /\ y' = Len(its) + 1 /\ Log("newfrom", "y", <<"n", 1>>) /\ UNCHANGED x   \* y := x.new(1)
 CopyX      == its' = Append(its, its[x]) /\ y' = Len(its) + 1 /\ Log("copy", "y", <<"n", 0>>) /\ UNCHANGED x        \* y := x._iter
